@@ -169,6 +169,12 @@ def fam_expr_fixed():
     add("orw", [["sig", "o", ["proj", ["orw", A, B], "signal-X"]]])
     add("not", [["sig", "o", ["proj", ["not", A], "signal-X"]]])
     add("notcmp", [["sig", "o", ["proj", ["not", ["cmp", "==", A, K(0)]], "signal-X"]]])
+    for op in CMPS:  # `!` directly on every comparison form (scalar-constant, scalar-scalar, constant on the left)
+        add(f"notcmpk-{op}", [["sig", "o", ["proj", ["not", ["cmp", op, A, K(5)]], "signal-X"]]])
+        add(f"notcmps-{op}", [["sig", "o", ["proj", ["not", ["cmp", op, A, B]], "signal-X"]]])
+        add(f"notcmp-untyped-{op}", [["sig", "n", ["not", ["cmp", op, C, K(5)]]], ["sig", "o", ["proj", ["bin", "*", V("n"), K(10)], "signal-X"]]])
+    add("notcmp-kleft", [["sig", "o", ["proj", ["not", ["cmp", "<", K(5), A]], "signal-X"]]])
+    add("notnotcmp", [["sig", "o", ["proj", ["not", ["not", ["cmp", ">", A, K(5)]]], "signal-X"]]])
     add("neg", [["sig", "o", ["neg", A]]])
     add("negexpr", [["sig", "o", ["proj", ["neg", ["bin", "+", A, B]], "signal-X"]]])
     add("proj", [["sig", "o", ["proj", C, "signal-X"]]])
@@ -248,6 +254,12 @@ def fam_expr_fixed():
     add("dup-chan-4", [["sig", "p", ["bin", "/", ["bin", "*", A, B], K(2)]], ["sig", "q", ["proj", ["bin", "*", A, B], "signal-D"]], ["sig", "r", ["proj", ["bin", "*", A, B], "signal-E"]]])
     add("dup-chan-5", [["sig", "p", ["proj", ["bin", "+", A, B], "signal-X"]], ["sig", "q", ["proj", ["bin", "+", ["proj", ["bin", "+", A, B], "signal-Y"], C], "signal-Z"]]])
     add("dup-cmp-chan", [["sig", "p", ["proj", ["cmp", ">", A, B], "signal-X"]], ["sig", "q", ["proj", ["bin", "*", ["proj", ["cmp", ">", A, B], "signal-Y"], K(5)], "signal-Z"]]])
+    # diamonds: t feeds u and v, u (projected onto a name sorting before / after t's) feeds v; one and several per program
+    for nm, (xs, us) in {"ba": ("b", "signal-A"), "ab": ("a", "signal-B"), "ax": ("a", "signal-X"), "item": ("c", "signal-A")}.items():
+        dia = lambda k, sfx="": [["sig", f"t{sfx}", ["bin", "*", V(xs), K(k)]], ["sig", f"u{sfx}", ["proj", ["bin", "+", V(f"t{sfx}"), K(1)], us]], ["sig", f"v{sfx}", ["bin", "+", V(f"u{sfx}"), V(f"t{sfx}")]]]  # noqa: E731
+        add(f"diamond-{nm}", dia(3))
+        add(f"diamond-{nm}-x4", dia(2, "1") + dia(3, "2") + dia(5, "3") + dia(7, "4"))
+        add(f"diamond-{nm}-sub", [["sig", "t", ["bin", "*", V(xs), K(3)]], ["sig", "u", ["proj", ["bin", "-", V("t"), K(1)], us]], ["sig", "v", ["proj", ["bin", "-", V("u"), V("t")], "signal-Y"]]])
     add("alias", [["sig", "o", A]])
     add("const-out", [["sig", "o", ["lit", "signal-X", K(42)]]])
     return progs
@@ -374,6 +386,11 @@ def fam_bundle_fixed():
             add(f"{nm}-gate-{op}", [["bun", "b", lit], ["bun", "r", ["cond", ["cmp", op, V("s"), K(4)], V("b")]]])
             add(f"{nm}-any-{op}", [["bun", "b", lit], ["sig", "r", ["cmp", op, ["any", V("b")], K(4)]]])
             add(f"{nm}-all-{op}", [["bun", "b", lit], ["sig", "r", ["cmp", op, ["all", V("b")], K(4)]]])
+            add(f"{nm}-notany-{op}", [["bun", "b", lit], ["sig", "r", ["not", ["cmp", op, ["any", V("b")], K(4)]]]])
+            add(f"{nm}-notall-{op}", [["bun", "b", lit], ["sig", "r", ["not", ["cmp", op, ["all", V("b")], K(4)]]]])
+        for kn, kv in (("k0", K(0)), ("kneg", K(-1)), ("k5", K(5)), ("kfold0", ["bin", "-", K(2), K(2)]), ("kmin", K(-2147483648))):
+            add(f"{nm}-filterconst-{kn}", [["bun", "b", lit], ["bun", "r", ["cond", ["cmp", ">", V("b"), K(0)], kv]]])
+            add(f"{nm}-filterconst-ne-{kn}", [["bun", "b", lit], ["bun", "r", ["cond", ["cmp", "!=", V("b"), K(4)], kv]], ["bun", "r2", ["bin", "+", V("r"), K(1)]]])
         add(f"{nm}-sel", [["bun", "b", lit], ["sig", "r", ["proj", ["bin", "*", ["sel", V("b"), "coal" if nm != "in" else "iron-plate"], K(2)], "signal-X"]]])
     # every ordered pair of bundle operations, once through a named intermediate and once as ONE nested expression
     steps = {
@@ -397,6 +414,15 @@ def fam_bundle_fixed():
             add(f"chain-cnamed-{n1}-{n2}", [["bun", "b", L3], ["bun", "g", f1(V("b"))], ["bun", "r", f2(V("g"))]])
             if not n2.startswith("filter"):
                 add(f"chain-nested-{n1}-{n2}", [["bun", "b", LIN], ["bun", "r", f2(f1(V("b")))]])
+    # the same bundle expression computed twice, the second copy consumed through several different VIEWS
+    L3i = ["bundle", [["lit", "iron-plate", K(100)], ["lit", "copper-plate", K(80)], ["lit", "coal", K(-5)]]]
+    for dn, mk in (("mul-s", lambda: ["bin", "*", V("b"), V("s")]), ("add-k", lambda: ["bin", "+", V("b"), K(3)]), ("filter", lambda: ["cond", ["cmp", ">", V("b"), K(0)], V("b")])):
+        for bn, blit in (("const", L3i), ("in", LIN)):
+            head = [["bun", "b", blit], ["bun", "c1", mk()], ["bun", "d1", mk()]]
+            add(f"dupviews-{dn}-{bn}-sel-sel", head + [["sig", "p", ["proj", ["bin", "+", ["sel", V("d1"), "iron-plate"], K(1)], "signal-X"]], ["sig", "q", ["proj", ["bin", "+", ["sel", V("d1"), "coal" if bn == "const" else "copper-plate"], K(1)], "signal-Y"]], ["bun", "keep", ["bin", "+", V("c1"), K(0)]]])
+            add(f"dupviews-{dn}-{bn}-any-all", head + [["sig", "p", ["proj", ["cmp", ">", ["any", V("d1")], K(50)], "signal-X"]], ["sig", "q", ["proj", ["cmp", ">", ["all", V("d1")], K(50)], "signal-Y"]], ["bun", "keep", ["bin", "+", V("c1"), K(0)]]])
+            add(f"dupviews-{dn}-{bn}-sel-each", head + [["sig", "p", ["proj", ["bin", "*", ["sel", V("d1"), "iron-plate"], K(2)], "signal-X"]], ["bun", "q", ["bin", "*", V("d1"), K(2)]], ["bun", "keep", ["bin", "+", V("c1"), K(0)]]])
+            add(f"dupviews-{dn}-{bn}-first-copy-views", head + [["sig", "p", ["proj", ["bin", "+", ["sel", V("c1"), "iron-plate"], K(1)], "signal-X"]], ["sig", "q", ["proj", ["bin", "+", ["sel", V("d1"), "coal" if bn == "const" else "copper-plate"], K(1)], "signal-Y"]]])
     add("chain3-add", [["bun", "b", LIN], ["bun", "r", ["bin", "+", ["bin", "+", ["bin", "+", V("b"), K(1)], K(2)], K(3)]]])
     add("chain3-mul", [["bun", "b", LIN], ["bun", "r", ["bin", "*", ["bin", "*", ["bin", "*", V("b"), K(2)], K(3)], K(5)]]])
     add("chain3-gates", [["bun", "b", LIN], ["bun", "g", ["cond", ["cmp", ">", V("s"), K(2)], V("b")]], ["bun", "h", ["cond", ["cmp", ">", V("t"), K(0)], V("g")]], ["bun", "i", ["cond", ["cmp", "<", V("s"), K(100)], V("h")]]])
@@ -511,6 +537,25 @@ def fam_mem_fixed():
         w = c["stmts"].pop()
         c["stmts"] += [["sig", "r0", ["read", "m"]], ["sig", "r1", ["proj", ["bin", "+", ["read", "m"], K(1)], "signal-X"]], w, ["sig", "r2", ["proj", ["bin", "*", ["read", "m"], K(2)], "signal-Y"]]]
         progs.append(c)
+    # constants of every sign as data (typed literal, bare int, int variable); negated / quantified / function-made enables
+    for vn, vv in (("k0", 0), ("kneg1", -1), ("kneg5", -5), ("k1", 1), ("kmin", -2147483648)):
+        progs.append(_mem_prog(f"mfixed-const-data-{vn}", ["lit", "signal-M", K(vv)], ["cmp", ">", Y, K(0)], fam="fixed"))
+        progs.append(_mem_prog(f"mfixed-int-data-{vn}", K(vv), ["cmp", ">", Y, K(0)], fam="fixed"))
+        c = _mem_prog(f"mfixed-intvar-data-{vn}", ["lit", "signal-M", V("kv")], Y, fam="fixed")
+        c["stmts"].insert(0, ["int", "kv", K(vv)])
+        progs.append(c)
+    BYZ = ["bundle", [Y, Z]]
+    for en_nm, en in (("not-cmp", ["not", ["cmp", ">", Y, K(0)]]), ("not-sig", ["not", Y]), ("not-and", ["not", ["and", ["cmp", ">", Y, K(0)], ["cmp", "<", Z, K(100)]]]), ("or", ["or", ["cmp", ">", Y, K(0)], ["cmp", "<", Z, K(0)]]),
+                      ("any", ["cmp", ">", ["any", BYZ], K(5)]), ("all", ["cmp", ">", ["all", BYZ], K(5)]), ("not-any", ["not", ["cmp", ">", ["any", BYZ], K(5)]]), ("not-all", ["not", ["cmp", ">", ["all", BYZ], K(5)]]),
+                      ("condk", ["cond", ["cmp", ">", Y, K(0)], K(1)]), ("int-left", ["cmp", "<", K(0), Y])):
+        progs.append(_mem_prog(f"mfixed-enable-{en_nm}", P(X), en, fam="fixed"))
+    Fn = lambda name, params, body, ret: ["func", name, [list(p) for p in params], body, ret]  # noqa: E731
+    c = _mem_prog("mfixed-func-data", P(["call", "step", [X, K(3)]]), ["cmp", ">", Y, K(0)], fam="fixed")
+    c["stmts"] = [Fn("scale", [("Signal", "v"), ("int", "k")], [], ["bin", "*", V("v"), V("k")]), Fn("step", [("Signal", "v"), ("int", "k")], [], ["bin", "+", ["call", "scale", [V("v"), ["bin", "+", V("k"), K(2)]]], V("k")])] + c["stmts"]
+    progs.append(c)
+    c = _mem_prog("mfixed-func-enable", P(X), ["call", "hot", [Y, K(4)]], fam="fixed")
+    c["stmts"] = [Fn("hot", [("Signal", "v"), ("int", "k")], [], ["cmp", ">", V("v"), V("k")])] + c["stmts"]
+    progs.append(c)
     named_en = _mem_prog("mfixed-named-enable", P(X), V("en"), fam="fixed")
     named_en["stmts"].insert(3, ["sig", "en", ["cmp", ">", Y, K(0)]])
     progs.append(named_en)
@@ -614,6 +659,25 @@ def fam_loop_fixed():
         progs.append(_loop_prog(f"lfixed-{nm}-after", [["write", "m", wr, None]], fam="fixed"))
         progs[-1]["stmts"].insert(2, ["sig", "tb", ["proj", ["bin", "*", X, K(2)], "signal-M"]])
         progs[-1]["params"]["warmup"] = 3
+    # f factored into helper functions: one level; nested with same-named / other-named parameters, the caller using its own
+    # parameters again AFTER the inner call; a helper with a local
+    Fn = lambda name, params, body, ret: ["func", name, [list(p) for p in params], body, ret]  # noqa: E731
+    scale = Fn("scale", [("Signal", "v"), ("int", "k")], [], ["bin", "*", V("v"), V("k")])
+    add("func-one-level", [scale, ["write", "m", ["bin", "%", ["bin", "+", ["call", "scale", [R, K(5)]], K(3)], K(64)], None]])
+    add("func-nested-same-params", [scale, Fn("step", [("Signal", "v"), ("int", "k")], [], ["bin", "%", ["bin", "+", ["call", "scale", [V("v"), ["bin", "+", V("k"), K(2)]]], V("k")], K(64)]), ["write", "m", ["call", "step", [R, K(3)]], None]])
+    add("func-nested-other-params", [scale, Fn("step", [("Signal", "w"), ("int", "j")], [], ["bin", "%", ["bin", "+", ["call", "scale", [V("w"), ["bin", "+", V("j"), K(2)]]], V("j")], K(64)]), ["write", "m", ["call", "step", [R, K(3)]], None]])
+    add("func-nested-signal-param-reused", [scale, Fn("step", [("Signal", "v")], [], ["bin", "%", ["bin", "+", ["call", "scale", [["bin", "+", V("v"), K(1)], K(3)]], V("v")], K(61)]), ["write", "m", ["call", "step", [R]], None]])
+    add("func-with-local", [Fn("upd", [("Signal", "v")], [["sig", "t", ["bin", "+", V("v"), K(1)]]], ["bin", "%", ["bin", "*", V("t"), K(3)], K(17)]), ["write", "m", ["call", "upd", [R]], None]])
+    add("func-input-arg", [Fn("mixin", [("Signal", "v"), ("Signal", "w")], [], ["bin", "%", ["bin", "+", ["bin", "*", V("v"), K(3)], V("w")], K(17)]), ["write", "m", ["call", "mixin", [R, P(X)]], None]])
+    # a later step with the INPUT (or another signal) on the left and the running value on the right
+    add("later-step-input-left-sub", [["write", "m", P(["bin", "-", X, ["bin", "*", R, K(3)]]), None]])
+    add("later-step-input-left-add-mod", [["write", "m", ["bin", "%", P(["bin", "+", X, ["bin", "*", ["bin", "+", R, K(1)], K(2)]]), K(31)], None]])
+    add("later-step-input-left-named", [["sig", "s1", ["bin", "*", R, K(3)]], ["sig", "s2", P(["bin", "-", X, V("s1")])], ["write", "m", V("s2"), None]])
+    # the other operand of a ONE-step cell travels on the cell's own signal (explicitly, or an untyped constant on a pool-typed cell)
+    add("one-step-input-on-cell-signal", [["write", "m", ["bin", "+", R, V("x")], None]], mtype="signal-A")
+    add("one-step-input-on-cell-signal-sub", [["write", "m", ["bin", "-", R, V("x")], None]], mtype="signal-A")
+    add("one-step-lit-on-cell-signal", [["sig", "kc", ["lit", "signal-M", K(7)]], ["write", "m", ["bin", "+", R, V("kc")], None]])
+    add("one-step-untyped-const", [["sig", "kc", K(5)], ["write", "m", ["bin", "+", R, V("kc")], None]], mtype="signal-A")
     # two-stage loops with several further consumers of the loop output
     add("two-stage-many-readers", [["sig", "s1", ["bin", "+", R, K(1)]], ["sig", "s2", ["bin", "%", V("s1"), K(10)]], ["write", "m", V("s2"), None], ["sig", "u1", ["proj", ["bin", "*", V("s2"), K(2)], "signal-U"]], ["sig", "u2", ["proj", ["bin", "+", V("s2"), K(7)], "signal-V"]]])
     return progs
@@ -687,6 +751,13 @@ def fam_latch_fixed():
         }.items():
             progs.append(_latch_prog(f"qfixed-{order}-{nm}", K(1), ["cmp", so, T, K(sc)], ["cmp", ro, T, K(rc)], order, ["t"], fam="fixed"))
         progs.append(_latch_prog(f"qfixed-{order}-v5", K(5), ["cmp", "<", T, K(20)], ["cmp", ">=", T, K(80)], order, ["t"], fam="fixed"))
+        for vn, vv in (("vneg1", -1), ("vneg5", -5), ("v0", 0), ("v2", 2), ("vmin", -2147483648)):
+            progs.append(_latch_prog(f"qfixed-{order}-inl-{vn}", K(vv), ["cmp", "<", T, K(20)], ["cmp", ">=", T, K(80)], order, ["t"], fam="fixed"))
+            progs.append(_latch_prog(f"qfixed-{order}-two-{vn}", K(vv), ["cmp", ">", T, K(10)], ["cmp", ">", U, K(10)], order, ["t", "u"], fam="fixed"))
+            progs.append(_latch_prog(f"qfixed-{order}-bool-{vn}", K(vv), V("s"), V("r"), order, ["s", "r"], bools=("s", "r"), fam="fixed"))
+        c = _latch_prog(f"qfixed-{order}-intvar-neg", V("kv"), ["cmp", "<", T, K(20)], ["cmp", ">=", T, K(80)], order, ["t"], fam="fixed")
+        c["stmts"].insert(0, ["int", "kv", ["bin", "-", K(2), K(9)]])
+        progs.append(c)
         progs.append(_latch_prog(f"qfixed-{order}-vsig", ["proj", V("v"), "signal-L"], ["cmp", "<", T, K(20)], ["cmp", ">=", T, K(80)], order, ["t", "v"], fam="fixed"))
         progs.append(_latch_prog(f"qfixed-{order}-two-inputs", K(1), ["cmp", ">", T, K(10)], ["cmp", ">", U, K(10)], order, ["t", "u"], fam="fixed"))
         progs.append(_latch_prog(f"qfixed-{order}-two-inputs-v7", K(7), ["cmp", ">", T, K(10)], ["cmp", "<", U, K(0)], order, ["t", "u"], fam="fixed"))
@@ -848,6 +919,20 @@ def fam_entity_fixed():
         progs.append(_ent_prog(f"efixed-const-{fn}-any-lt", pre + [["bun", "bb", ["bundle", [A, C]]], lamp(0), ["enable", "e0", ["cmp", "<", ["any", V("bb")], kexpr]]], fam="fixed"))
     progs.append(_ent_prog("efixed-const-iter-any", [chest0, ["bun", "co", ["out", "ch"]], ["for", "i", ["range", 2, 5, None], [["place", "l", "small-lamp", V("i"), K(0), None], ["enable", "l", ["cmp", ">", ["any", V("co")], V("i")]]]]], fam="fixed"))
     progs.append(_ent_prog("efixed-const-param-any", [chest0, ["bun", "co", ["out", "ch"]], ["func", "ctl", [["Entity", "e"], ["int", "k"]], [["enable", "e", ["cmp", ">", ["all", V("co")], V("k")]]], V("k")], lamp(0), ["int", "z", ["call", "ctl", [V("e0"), ["bin", "+", K(2), K(3)]]]]], fam="fixed"))
+    # `!` directly on every condition shape: scalar, signal-signal, quantified over an input bundle / a chest, compound
+    bb = ["bun", "bb", ["bundle", [A, C]]]
+    for op in CMPS:
+        progs.append(_ent_prog(f"efixed-not-cmpk-{op}", [lamp(0), ["enable", "e0", ["not", ["cmp", op, A, K(5)]]]], fam="fixed"))
+        progs.append(_ent_prog(f"efixed-not-cmps-{op}", [lamp(0), ["enable", "e0", ["not", ["cmp", op, A, B]]]], fam="fixed"))
+        progs.append(_ent_prog(f"efixed-not-any-{op}", [bb, lamp(0), ["enable", "e0", ["not", ["cmp", op, ["any", V("bb")], K(5)]]]], fam="fixed"))
+        progs.append(_ent_prog(f"efixed-not-all-{op}", [bb, lamp(0), ["enable", "e0", ["not", ["cmp", op, ["all", V("bb")], K(5)]]]], fam="fixed"))
+        progs.append(_ent_prog(f"efixed-not-chest-any-{op}", [chest0, ["bun", "co", ["out", "ch"]], lamp(0), ["enable", "e0", ["not", ["cmp", op, ["any", V("co")], K(10)]]]], fam="fixed"))
+        progs.append(_ent_prog(f"efixed-not-chest-all-{op}", [chest0, ["bun", "co", ["out", "ch"]], lamp(0), ["enable", "e0", ["not", ["cmp", op, ["all", V("co")], K(10)]]]], fam="fixed"))
+    progs.append(_ent_prog("efixed-not-named-any", [bb, ["sig", "n", ["not", ["cmp", ">", ["any", V("bb")], K(5)]]], lamp(0), ["enable", "e0", V("n")], ["sig", "o", ["proj", ["bin", "*", V("n"), K(7)], "signal-X"]]], fam="fixed"))
+    progs.append(_ent_prog("efixed-not-and", [lamp(0), ["enable", "e0", ["not", ["and", ["cmp", ">", A, K(0)], ["cmp", "<", B, K(9)]]]]], fam="fixed"))
+    progs.append(_ent_prog("efixed-not-or", [lamp(0), ["enable", "e0", ["not", ["or", ["cmp", ">", A, K(0)], ["cmp", "<", B, K(9)]]]]], fam="fixed"))
+    progs.append(_ent_prog("efixed-not-not", [lamp(0), ["enable", "e0", ["not", ["not", ["cmp", ">", A, K(5)]]]]], fam="fixed"))
+    progs.append(_ent_prog("efixed-not-arith", [lamp(0), ["enable", "e0", ["not", ["bin", "-", A, K(5)]]]], fam="fixed"))
     # shared sources, several entities
     progs.append(_ent_prog("efixed-shared-decider", [["sig", "f", ["cmp", ">", A, K(10)]], lamp(0), lamp(1), ["enable", "e0", V("f")], ["enable", "e1", V("f")]], fam="fixed"))
     progs.append(_ent_prog("efixed-shared-decider-other-use", [["sig", "f", ["cmp", ">", A, K(10)]], lamp(0), ["enable", "e0", V("f")], ["sig", "o", ["proj", ["bin", "+", V("f"), B], "signal-X"]]], fam="fixed"))
@@ -1214,22 +1299,26 @@ def corpus_c12(tier):
 FRESH_TYPES = ["signal-heart", "signal-star", "signal-check", "signal-deny", "signal-alert", "signal-pink", "signal-cyan", "signal-grey"]
 
 
-def _fresh_twin(stmts):
-    """give every untyped declared input a fresh, otherwise unused explicit type"""
+def _fresh_twin(stmts, twin_proj=()):
+    """give every untyped declared input (and every named compiler-typed value listed in twin_proj) a fresh, otherwise
+    unused explicit type"""
     out, i = [], 0
     for s in stmts:
         if s[0] == "input" and s[2] is None:
             out.append(["input", s[1], FRESH_TYPES[i % len(FRESH_TYPES)] if i < len(FRESH_TYPES) else f"signal-{i % 10}", s[3]])
+            i += 1
+        elif s[0] == "sig" and s[1] in twin_proj:
+            out.append(["sig", s[1], ["proj", s[2], FRESH_TYPES[i % len(FRESH_TYPES)]]])
             i += 1
         else:
             out.append(s)
     return out
 
 
-def _fresh_case(cid, stmts, fam="fresh"):
+def _fresh_case(cid, stmts, fam="fresh", twin_proj=()):
     pairs = []
     for b in (OPT, NOOPT):
-        pairs.append({"a": {"stmts": stmts, "build": b, "label": "untyped"}, "b": {"stmts": _fresh_twin(stmts), "build": b, "label": "renamed"}, "tag": f"{b['tag']}/rename"})
+        pairs.append({"a": {"stmts": stmts, "build": b, "label": "untyped"}, "b": {"stmts": _fresh_twin(stmts, twin_proj), "build": b, "label": "renamed"}, "tag": f"{b['tag']}/rename"})
     return {"id": cid, "family": fam, "stmts": stmts, "kind": "fresh", "pairs": pairs}
 
 
@@ -1246,6 +1335,12 @@ def fam_fresh_fixed():
         add(f"{nm}-arith", ex + un, [["sig", "o", ["proj", ["bin", "+", ["bin", "*", U, X], W2], "signal-X"]], ["sig", "p", ["proj", ["bin", "-", Y, U], "signal-Y"]]])
         add(f"{nm}-cmp", ex + un, [["sig", "o", ["proj", ["cond", ["cmp", ">", U, X], Y], "signal-X"]], ["sig", "p", ["proj", ["cmp", "<", W2, Y], "signal-Y"]]])
         add(f"{nm}-enable", ex + un, [["place", "l", "small-lamp", K(0), K(0), None], ["enable", "l", ["cmp", ">", ["bin", "+", U, X], K(5)]], ["place", "l2", "small-lamp", K(2), K(0), None], ["enable", "l2", ["cmp", ">", U, K(7)]]])
+        # conditional copies: untyped condition / explicit value and the reverse, every pairing (name coincidences on the copy stage)
+        for cn, cv in (("u", U), ("u2", W2)):
+            for vn, vv in (("x", X), ("y", Y)):
+                add(f"{nm}-condcopy-{cn}-{vn}", ex + un, [["sig", "r", ["cond", ["cmp", ">", cv, K(2)], vv]], ["sig", "o", ["proj", ["bin", "+", V("r"), K(0)], "signal-X"]], ["sig", "chk", ["proj", ["bin", "-", vv, cv], "signal-Y"]]])
+                add(f"{nm}-condcopy-{vn}-{cn}", ex + un, [["sig", "r", ["cond", ["cmp", ">", vv, K(2)], cv]], ["sig", "o", ["proj", ["bin", "+", V("r"), K(0)], "signal-X"]]])
+        add(f"{nm}-condcopy-named-cmp", ex + un, [["sig", "cc", ["cmp", ">", U, K(2)]], ["sig", "r", ["cond", V("cc"), X]], ["sig", "r2", ["cond", V("cc"), Y]], ["sig", "o", ["proj", ["bin", "+", V("r"), V("r2")], "signal-X"]]])
         add(f"{nm}-mix-reuse", ex + un, [["sig", "m", ["bin", "+", U, K(1)]], ["sig", "o", ["proj", ["bin", "*", V("m"), X], "signal-X"]], ["sig", "p", ["proj", ["bin", "+", V("m"), W2], "signal-Y"]]])
     # many untyped values (more than the 26 letters)
     for n in (10, 27, 37, 45):
@@ -1274,6 +1369,23 @@ def fam_fresh_stateful():
     U, U2 = V("u"), V("u2")
     un = [("u", None, 10061), ("u2", None, 10067)]
     ex = [("x", "signal-S", 10007)]
+    # compiler-typed RESULTS (comparisons / conditional constants on an item signal): the same expression twice, the second
+    # occurrence consumed by an untyped memory, an entity condition, arithmetic, a conditional copy
+    it = [("c", "iron-plate", 10007), ("g", "signal-G", 10009)]
+    C_, G_ = V("c"), V("g")
+
+    def addp(name, ins, body, tp, **params):
+        c = _fresh_case(f"ffixed-{name}", [["input"] + list(i) for i in ins] + body, fam="fixed", twin_proj=tp)
+        c["params"] = params
+        progs.append(c)
+
+    for dn, dup in (("cmp", lambda: ["cmp", ">", C_, K(5)]), ("condk", lambda: ["cond", ["cmp", ">", C_, K(5)], K(1)]), ("intleft", lambda: ["cmp", "<", K(5), C_])):
+        head = [["sig", "hi", dup()], ["sig", "big", ["proj", ["bin", "*", V("hi"), K(100)], "signal-X"]], ["sig", "again", dup()]]
+        addp(f"dup-{dn}-untyped-mem", it, head + [["mem", "seen", None], ["write", "seen", V("again"), ["cmp", ">", G_, K(0)]], ["sig", "o", ["proj", ["bin", "+", ["read", "seen"], K(0)], "signal-Y"]]], ("hi", "again"), K=3)
+        addp(f"dup-{dn}-enable", it, head + [["place", "l", "small-lamp", K(0), K(0), None], ["enable", "l", V("again")]], ("hi", "again"))
+        addp(f"dup-{dn}-arith", it, head + [["sig", "o", ["proj", ["bin", "+", V("again"), G_], "signal-Y"]]], ("hi", "again"))
+        addp(f"dup-{dn}-condcopy", it, head + [["sig", "o", ["proj", ["cond", V("again"), G_], "signal-Y"]]], ("hi", "again"))
+        addp(f"dup-{dn}-first-to-mem", it, [["sig", "hi", dup()], ["mem", "seen", None], ["write", "seen", V("hi"), ["cmp", ">", G_, K(0)]], ["sig", "again", dup()], ["sig", "big", ["proj", ["bin", "*", V("again"), K(100)], "signal-X"]], ["sig", "o", ["proj", ["bin", "+", ["read", "seen"], K(0)], "signal-Y"]]], ("hi", "again"), K=3)
     # memory: untyped data / untyped enable / both the same untyped value / untyped memory
     add("mem-untyped-data", un + ex, [["mem", "m", "signal-M"], ["write", "m", ["proj", U, "signal-M"], ["cmp", ">", V("x"), K(0)]], ["sig", "o", ["proj", ["read", "m"], "signal-X"]]], K=3)
     add("mem-untyped-enable", un + ex, [["mem", "m", "signal-M"], ["write", "m", ["proj", V("x"), "signal-M"], ["cmp", ">", U, K(0)]], ["sig", "o", ["proj", ["read", "m"], "signal-X"]]], K=3)
@@ -1341,6 +1453,18 @@ def fam_func_fixed():
     add("local-shadows-caller-param", [F("g", [("Signal", "v")], [["sig", "x", ["bin", "+", V("v"), K(1)]]], ["bin", "*", V("x"), K(3)]), F("f", [("Signal", "x")], [], ["bin", "+", ["call", "g", [B]], X]), ["sig", "o", ["proj", ["call", "f", [A]], "signal-X"]]])
     add("nested", [F("g", [("Signal", "x")], [], ["bin", "+", X, K(1)]), F("f", [("Signal", "x")], [], ["bin", "*", ["call", "g", [X]], ["call", "g", [["bin", "+", X, K(5)]]]]), ["sig", "o", ["proj", ["call", "f", [A]], "signal-X"]]])
     add("nested-same-param-name", [F("g", [("Signal", "x")], [], ["bin", "-", X, K(1)]), F("f", [("Signal", "x")], [["sig", "y", ["call", "g", [["bin", "*", X, K(2)]]]]], ["bin", "+", V("y"), X]), ["sig", "o", ["proj", ["call", "f", [A]], "signal-X"]]])
+    sc = F("scale", [("Signal", "x"), ("int", "k")], [], ["bin", "*", X, Kk])
+    add("nested-same-int-param-reused", [sc, F("step", [("Signal", "x"), ("int", "k")], [], ["bin", "+", ["call", "scale", [X, ["bin", "+", Kk, K(2)]]], Kk]), ["sig", "o", ["proj", ["call", "step", [A, K(3)]], "signal-X"]]])
+    add("nested-same-int-param-before-and-after", [sc, F("step", [("Signal", "x"), ("int", "k")], [], ["bin", "-", ["bin", "*", X, Kk], ["bin", "+", ["call", "scale", [["bin", "+", X, K(1)], ["bin", "*", Kk, K(2)]]], ["bin", "*", X, Kk]]]), ["sig", "o", ["proj", ["call", "step", [A, K(3)]], "signal-X"]]])
+    add("nested-three-levels", [sc, F("mid", [("Signal", "x"), ("int", "k")], [], ["bin", "+", ["call", "scale", [X, ["bin", "+", Kk, K(1)]]], Kk]), F("top", [("Signal", "x"), ("int", "k")], [], ["bin", "-", ["call", "mid", [["bin", "+", X, K(1)], ["bin", "*", Kk, K(2)]]], ["bin", "*", X, Kk]]), ["sig", "o", ["proj", ["call", "top", [A, K(3)]], "signal-X"]]])
+    add("nested-entity-param-same-name", [F("inner", [("Entity", "e"), ("Signal", "x")], [["enable", "e", ["cmp", ">", X, K(3)]]], X), F("outer2", [("Entity", "e"), ("Entity", "f"), ("Signal", "x")], [["sig", "t", ["call", "inner", [V("f"), ["bin", "+", X, K(1)]]]], ["enable", "e", ["cmp", "<", X, K(0)]]], V("t")),
+                                          ["place", "l1", "small-lamp", K(0), K(0), None], ["place", "l2", "small-lamp", K(3), K(0), None], ["sig", "o", ["proj", ["call", "outer2", [V("l1"), V("l2"), A]], "signal-X"]]])
+    relu = F("relu", [("Signal", "v")], [], ["bin", "+", ["cond", ["cmp", "<", V("v"), K(0)], K(0)], ["cond", ["cmp", ">=", V("v"), K(0)], V("v")]])
+    atl = F("at_least", [("Signal", "v"), ("int", "lo")], [], ["cond", ["cmp", "<", V("v"), V("lo")], V("lo")])
+    pick = F("pick", [("Signal", "c"), ("Signal", "v")], [], ["cond", ["cmp", ">", V("c"), K(0)], V("v")])
+    for ln, call in (("relu-neg", ["call", "relu", [K(-5)]]), ("relu-pos", ["call", "relu", [K(5)]]), ("relu-zero", ["call", "relu", [K(0)]]), ("atleast-neg-0", ["call", "at_least", [K(-5), K(0)]]), ("atleast-neg-3", ["call", "at_least", [K(-5), K(3)]]), ("atleast-neg-neg", ["call", "at_least", [K(-5), K(-2)]]),
+                     ("atleast-false", ["call", "at_least", [K(9), K(3)]]), ("pick-1-0", ["call", "pick", [K(1), K(0)]]), ("pick-1-5", ["call", "pick", [K(1), K(5)]]), ("pick-0-5", ["call", "pick", [K(0), K(5)]]), ("pick-1-neg", ["call", "pick", [K(1), K(-1)]]), ("pick-sig-0", ["call", "pick", [B, K(0)]]), ("pick-1-sig", ["call", "pick", [K(1), B]])):
+        add(f"all-literal-args-{ln}", [relu, atl, pick, ["sig", "o", ["proj", ["bin", "+", call, A], "signal-X"]]])
     add("param-type-actual", [F("f", [("Signal", "x")], [], ["bin", "+", X, K(1)]), ["sig", "o", ["call", "f", [C]]]])
     add("cond-in-func", [F("mx", [("Signal", "x"), ("Signal", "y")], [], ["bin", "+", ["cond", ["cmp", ">=", X, Y], X], ["cond", ["cmp", "<", X, Y], Y]]), ["sig", "o", ["proj", ["call", "mx", [A, B]], "signal-X"]]])
     add("call-in-loop", [F("f", [("Signal", "x"), ("int", "k")], [], ["bin", "+", X, Kk]), ["for", "i", ["range", 0, 3, None], [["place", "l", "small-lamp", V("i"), K(0), None], ["enable", "l", ["cmp", ">", ["call", "f", [A, V("i")]], K(5)]]]]])
@@ -1452,6 +1576,19 @@ def fam_loop16_fixed():
     add("call-twice-typed-literal", [["func", "f", [["int", "n"], ["Signal", "x"]], [], ["bin", "-", V("x"), ["lit", "signal-A", V("n")]]], ["sig", "o1", ["proj", ["call", "f", [K(3), A]], "signal-X"]], ["sig", "o2", ["proj", ["call", "f", [K(9), A]], "signal-Y"]], ["sig", "o3", ["proj", ["call", "f", [K(-4), B]], "signal-Z"]]])
     add("call-twice-const-bundle", [["func", "mk", [["int", "n"], ["Entity", "e"]], [["bun", "cb", ["bundle", [["lit", "signal-C", V("n")], ["lit", "coal", ["bin", "*", V("n"), K(10)]]]]], ["enable", "e", ["cmp", ">=", ["all", V("cb")], K(3)]]], V("n")],
                                     ["place", "l1", "small-lamp", K(0), K(0), None], ["place", "l2", "small-lamp", K(2), K(0), None], ["int", "r1", ["call", "mk", [K(1), V("l1")]]], ["int", "r2", ["call", "mk", [K(7), V("l2")]]]])
+    # results declared in the body that nothing consumes: every iteration exposes its own (one observation point per iteration)
+    add("body-out-arith", [["for", "i", ["range", 0, 3, None], [["sig", "t", ["bin", "*", A, ["bin", "+", I, K(2)]]], ["sig", "y", ["bin", "+", V("t"), I]]]]], places=False)
+    add("body-out-desc-nondiv", [["for", "k", ["range", 7, 0, -3], [["sig", "w", ["bin", "-", A, V("k")]]]]], places=False)
+    add("body-out-const-literal", [["for", "i", ["range", 1, 4, None], [["sig", "c", ["lit", "signal-B", I]]]]], places=False)
+    add("body-out-const-literal-used", [["for", "i", ["range", 1, 4, None], [["sig", "c", ["lit", "signal-B", I]], ["sig", "y", ["proj", ["bin", "*", V("c"), A], "signal-X"]]]]], places=False)
+    add("body-out-const-literal-nested", [["for", "j", ["list", [10, 20]], [["for", "i", ["range", 1, 3, None], [["sig", "c", ["lit", "signal-B", ["bin", "+", I, V("j")]]], ["sig", "y", ["proj", ["bin", "+", V("c"), A], "signal-X"]]]]]]], places=False)
+    add("body-out-diamond", [["for", "i", ["range", 1, 5, None], [["sig", "t", ["bin", "*", B, I]], ["sig", "u", ["proj", ["bin", "+", V("t"), K(1)], "signal-A"]], ["sig", "v", ["bin", "+", V("u"), V("t")]]]]], places=False)
+    add("body-out-diamond-rev-names", [["for", "i", ["range", 1, 5, None], [["sig", "t", ["bin", "*", A, I]], ["sig", "u", ["proj", ["bin", "+", V("t"), K(1)], "signal-B"]], ["sig", "v", ["bin", "+", V("u"), V("t")]]]]], places=False)
+    add("body-out-diamond-list-nested", [["for", "k", ["list", [0]], [["for", "i", ["list", [4, 3, 2, 1]], [["sig", "t", ["bin", "*", B, ["bin", "+", I, V("k")]]], ["sig", "u", ["proj", ["bin", "+", V("t"), K(1)], "signal-A"]], ["sig", "v", ["bin", "+", V("u"), V("t")]]]]]]], places=False)
+    add("body-out-cmp", [["for", "i", ["list", [2, 5, 9]], [["sig", "f", ["cmp", ">", A, I]]]]], places=False)
+    add("body-out-projected-same-signal", [["for", "i", ["range", 0, 3, None], [["sig", "p", ["proj", ["bin", "+", A, ["bin", "*", I, K(10)]], "signal-X"]]]]], places=False)
+    add("body-out-nested", [["for", "i", ["range", 0, 2, None], [["for", "j", ["range", 0, 2, None], [["sig", "z", ["bin", "+", ["bin", "*", A, ["bin", "+", I, K(1)]], V("j")]]]]]]], places=False)
+    add("body-out-and-lamp", [["for", "i", ["range", 0, 3, None], [["sig", "y", ["proj", ["bin", "-", A, I], "signal-X"]], ["place", "l", "small-lamp", I, K(0), None], ["enable", "l", ["cmp", ">", B, I]]]]])
     add("mem-in-body", [["for", "i", ["range", 0, 2, None], [["mem", "m", "signal-M"], ["write", "m", ["proj", ["bin", "+", A, I], "signal-M"], ["cmp", ">", B, I]], ["place", "l", "small-lamp", I, K(0), None], ["enable", "l", ["cmp", ">", ["read", "m"], K(3)]]]]], places=True, kind_override="history")
     for c in progs:
         if c["params"].pop("kind_override", None):
@@ -1794,6 +1931,21 @@ def fam_layout_fixed():
                                 ["place", "l", "small-lamp", K(3), K(3), None], ["enable", "l", ["cmp", ">", A, K(1)]]])
     add("memory-far-reader", [["mem", "m", "signal-M"], ["write", "m", P(["bin", "*", A, K(2)], "signal-M"), ["cmp", ">", B, K(0)]], ["place", "l", "small-lamp", K(30), K(0), None], ["enable", "l", ["cmp", ">", ["read", "m"], K(5)]], ["sig", "r0", ["read", "m"]]], K=3)
     add("latch-multiplier-far", [["mem", "m", "signal-L"], ["latch", "m", K(7), ["cmp", "<", A, K(20)], ["cmp", ">=", A, K(80)], "sr"], ["place", "l", "small-lamp", K(-25), K(3), None], ["enable", "l", ["cmp", ">", ["read", "m"], K(0)]], ["sig", "r0", ["read", "m"]]], K=3)
+    # two independent long routes in every quadrant (relay tiles at negative coordinates)
+    for qn, (sx, sy) in (("neg-y", (1, -1)), ("neg-x", (-1, 1)), ("neg-xy", (-1, -1))):
+        add(f"two-chests-two-lamps-{qn}", [["place", "c1", "steel-chest", K(0), K(sy * 2), None], ["place", "c2", "steel-chest", K(0), K(sy * 5), None], ["bun", "o1", ["out", "c1"]], ["bun", "o2", ["out", "c2"]],
+                                           ["place", "l1", "small-lamp", K(sx * 20), K(sy * 2), None], ["place", "l2", "small-lamp", K(sx * 20), K(sy * 5), None], ["enable", "l1", ["cmp", ">", ["any", V("o1")], K(5)]], ["enable", "l2", ["cmp", ">", ["any", V("o2")], K(5)]]])
+        add(f"two-chests-two-lamps-30-{qn}", [["place", "c1", "steel-chest", K(sx * 1), K(sy * 3), None], ["place", "c2", "steel-chest", K(sx * 1), K(sy * 6), None], ["bun", "o1", ["out", "c1"]], ["bun", "o2", ["out", "c2"]],
+                                              ["place", "l1", "small-lamp", K(sx * 31), K(sy * 3), None], ["place", "l2", "small-lamp", K(sx * 31), K(sy * 6), None], ["enable", "l1", ["cmp", ">", ["any", V("o1")], K(5)]], ["enable", "l2", ["cmp", ">", ["any", V("o2")], K(5)]]])
+    # every latch form (value: 1 / constant / declared input / computed; conditions inlined / as signals), compact and with far consumers
+    VL = ["input", "vl", "signal-L", 10067]
+    SS, RR = ["input", "s", "signal-S", 10039], ["input", "r", "signal-R", 10061]
+    for vn, vv, vin in (("one", K(1), []), ("k7", K(7), []), ("input", V("vl"), [VL]), ("computed", P(["bin", "*", B, K(2)], "signal-L"), [])):
+        for cn, (st, rs, cin) in (("inl", (["cmp", "<", A, K(20)], ["cmp", ">=", A, K(80)], [])), ("two", (["cmp", ">", A, K(10)], ["cmp", ">", B, K(10)], [])), ("sig", (V("s"), V("r"), [SS, RR]))):
+            lat = vin + cin + [["mem", "m", "signal-L"], ["latch", "m", vv, st, rs, "sr"]]
+            if vn == "input":
+                add(f"latch-{vn}-{cn}-compact", lat + [["sig", "r0", ["read", "m"]]], ref_check=False)
+            add(f"latch-{vn}-{cn}-far", lat + [["place", "l0", "small-lamp", K(0), K(0), None], ["enable", "l0", ["cmp", ">", A, K(5)]], ["place", "l", "small-lamp", K(40), K(0), None], ["enable", "l", ["cmp", ">", ["read", "m"], K(0)]]], ref_check=False)
     body = [["sig", "m", ["bin", "*", A, K(3)]]]
     for i in range(12):
         body.append(["sig", f"o{i}", P(["bin", "+", V("m"), K(i + 1)], f"signal-{chr(ord('C') + i)}")])
@@ -1865,6 +2017,8 @@ def fam_places_fixed():
         add(f"user-pole-{pt}", lamp("l0", K(0), K(0), A) + lamp("up", K(25), K(12), proto=proto) + lamp("up2", K(-14), K(-9), proto=proto) + lamp("up3", K(3), K(1), proto=proto))
     add("signal-const-coordinates", [["sigconst", "left", 2], ["sigconst", "org", 0], ["sigconst", "top", 1], ["for", "i", ["range", 0, 4, None], lamp("l", ["bin", "+", V("left"), ["bin", "*", I, K(2)]], ["bin", "+", V("top"), K(1)], ["cmp", ">", A, I])]]
         + lamp("z0", ["bin", "+", V("org"), K(2)], ["bin", "+", V("org"), K(6)]) + lamp("z1", ["bin", "*", V("left"), V("org")], ["bin", "+", V("top"), K(8)]) + lamp("z2", V("org"), ["bin", "-", V("org"), V("left")]))
+    add("signal-const-noncommutative", [["sigconst", "wd", 16], ["sigconst", "left", 2]] + lamp("n0", ["bin", "-", V("wd"), K(1)], K(0), A) + lamp("n1", ["bin", "/", V("wd"), K(3)], K(2), B) + lamp("n2", ["bin", "%", V("wd"), K(5)], K(4))
+        + lamp("n3", ["bin", "-", K(20), V("wd")], K(6), ["cmp", ">", A, K(1)]) + lamp("n4", ["bin", "-", V("wd"), V("left")], K(8)) + lamp("n5", K(0), ["bin", "-", V("left"), V("wd")]) + lamp("n6", ["bin", "<<", V("left"), K(3)], K(10)) + lamp("n7", ["bin", ">>", V("wd"), K(2)], K(12)))
     add("props", lamp("l", K(2), K(3), A, props={"always_on": 1, "use_colors": 1}) + lamp("t", K(-4), K(6), props={"station": '"Iron Pickup"'}, proto="train-stop") + lamp("i", K(0), K(0), A, proto="inserter", props={"direction": 4}) + lamp("am", K(6), K(6), props={"recipe": '"iron-gear-wheel"'}, proto="assembling-machine-1"))
     add("adjacent-to-origin", lamp("l0", K(0), K(0), A) + lamp("l1", K(1), K(0), B) + lamp("l2", K(0), K(1), ["cmp", ">", ["bin", "+", A, B], K(3)]) + [["sig", "o", ["proj", ["bin", "*", A, B], "signal-X"]]])
     add("far-corners", lamp("l0", K(-40), K(-40), A) + lamp("l1", K(40), K(40), A) + lamp("l2", K(-40), K(40), B) + lamp("l3", K(40), K(-40), B))
@@ -1915,6 +2069,9 @@ def fam_power_fixed():
     add("user-poles", lamps([(0, 0), (2, 0)]) + [["place", "up1", "medium-electric-pole", K(20), K(1), None], ["place", "up2", "small-electric-pole", K(-9), K(6), None], ["place", "up3", "big-electric-pole", K(10), K(10), None], ["place", "up4", "substation", K(-12), K(-12), None]])
     add("signal-const-coordinates", [["sigconst", "left", 2], ["sigconst", "org", 0], ["sigconst", "top", 1]] + [s_ for j in range(4) for s_ in ([["place", f"l{j}", "small-lamp", ["bin", "+", V("left"), K(j * 2)], ["bin", "+", V("top"), K(1)], None], ["enable", f"l{j}", ["cmp", ">", A, K(j)]]])]
         + [["place", "z0", "small-lamp", ["bin", "+", V("org"), K(2)], ["bin", "+", V("org"), K(6)], None], ["place", "z1", "small-lamp", ["bin", "*", V("left"), V("org")], ["bin", "+", V("top"), K(8)], None]])
+    add("signal-const-noncommutative", [["sigconst", "wd", 16], ["sigconst", "right", 12]] + lamps([(i * 2, 0) for i in range(8)]) + [["place", "endm", "small-lamp", ["bin", "-", V("wd"), K(1)], K(0), None], ["enable", "endm", ["cmp", ">", B, K(0)]],
+                                        ["place", "err", "small-lamp", ["bin", "-", V("right"), K(3)], K(2), None], ["enable", "err", ["cmp", "<", B, K(0)]], ["place", "half", "small-lamp", ["bin", "/", V("wd"), K(2)], K(4), None], ["enable", "half", ["cmp", ">", A, K(0)]]])
+    add("signal-const-noncommutative-2", [["sigconst", "wd", 24]] + lamps([(0, 0), (2, 0)]) + [["place", "endm", "small-lamp", ["bin", "-", V("wd"), K(20)], K(2), None], ["enable", "endm", ["cmp", ">", B, K(0)]], ["place", "q", "small-lamp", ["bin", "%", V("wd"), K(5)], K(4), None], ["enable", "q", ["cmp", ">", B, K(1)]]])
     add("memory", [["mem", "m", "signal-M"], ["write", "m", P(A, "signal-M"), ["cmp", ">", B, K(0)]], ["sig", "r0", ["read", "m"]]] + lamps([(0, 0)], cond=lambda j: ["cmp", ">", ["read", "m"], K(3)]), K=3)
     body = []
     for i in range(10):
